@@ -106,6 +106,10 @@ pub fn curated() -> Vec<(&'static str, Spec, bool)> {
     add("skip_la_end", true, vec![s("#[a-z]*$"), r("[a-z]+"), t("#").prio(1)]);
     add("skip_la_wb", true, vec![s(r" +(?-u:\b)"), r("[a-z]+"), t(" ").prio(1)]);
     add("skip_la_bytes", false, vec![s("//[^\n]*(?m:$)").greedy(), r("[a-z]+"), t("\n")]);
+    // byte classes that wrap around 0xff on two mutually linked loop states
+    add("wrap_class_loops", false, vec![Pat::bregex(b"([^a-z]+|[a-z]+)+")]);
+    add("wrap_class_loops2", false, vec![Pat::bregex(b"([\\x00-\\x10\\xFF]+|[a-z]+)+"), Pat::bregex(b"[\\x80-\\xfe]").prio(1)]);
+    add("wrap_class_loops3", true, vec![r("([^a-z]+|[a-z]+)+")]);
     // ---- generator shortcuts
     add("sc_two_edges", true, vec![r("a[bc]"), r("a[de]x")]);
     add("sc_three_edges", true, vec![r("ab"), r("ac"), r("ad"), r("ae")]);
